@@ -98,6 +98,57 @@ def _local_value(name: str, scope: ast.AST, fn: ast.AST):
     return None
 
 
+def _assigns_name(stmt: ast.AST, name: str) -> bool:
+    for n in ast.walk(stmt):
+        if isinstance(n, ast.Name) and n.id == name and isinstance(n.ctx, (ast.Store, ast.Del)):
+            return True
+    return False
+
+
+def reaching_def(name: str, at: ast.AST, fn: ast.AST):
+    """the unconditional assignment `name = value` that reaches statement `at` in straight-line order (handles a name
+    that is re-bound sequentially): -> (value, statement) or None when the reaching definition is conditional / absent"""
+    child = at
+    while child is not None and child is not fn:
+        p = getattr(child, "_parent", None)
+        if p is None:
+            return None
+        for fld in ("body", "orelse", "finalbody"):
+            blk = getattr(p, fld, None)
+            if isinstance(blk, list) and any(x is child for x in blk):
+                idx = next(i for i, x in enumerate(blk) if x is child)
+                for st in reversed(blk[:idx]):
+                    if isinstance(st, ast.Assign) and len(st.targets) == 1 and isinstance(st.targets[0], ast.Name) and st.targets[0].id == name:
+                        return st.value, st
+                    if isinstance(st, ast.AnnAssign) and isinstance(st.target, ast.Name) and st.target.id == name and st.value is not None:
+                        return st.value, st
+                    if _assigns_name(st, name):
+                        return None
+                if isinstance(p, (ast.For, ast.While)) and _assigns_name(p, name):
+                    return None         # may come from a previous iteration
+        child = p
+    return None
+
+
+def _stmt_of(node: ast.AST, fn: ast.AST):
+    n = node
+    while n is not None and not isinstance(n, ast.stmt):
+        n = getattr(n, "_parent", None)
+    return n
+
+
+def subst(e: ast.AST, binding: dict) -> ast.AST:
+    """copy of `e` with loaded names replaced by the bound expressions"""
+    import copy
+
+    class S(ast.NodeTransformer):
+        def visit_Name(self, n):
+            if isinstance(n.ctx, ast.Load) and n.id in binding:
+                return copy.deepcopy(binding[n.id])
+            return n
+    return S().visit(copy.deepcopy(e))
+
+
 def lin_local(e: ast.AST, scope: ast.AST, fn: ast.AST) -> dict:
     """linear form of `e` with the scope's single-assignment arithmetic temporaries expanded (transitively)"""
     env: dict = {}
@@ -144,13 +195,104 @@ def _nonempty_tests(frame: str) -> set[str]:
 
 # ------------------------------------------------------------------------------------------------ R04.1
 
+def _fresh(base: str, taken: set) -> str:
+    n = base
+    while n in taken:
+        n += "_"
+    return n
+
+
+def _frame_column(e: ast.AST, frame: str):
+    """`F['c']`, `F['c'].to_list()`, `list(F['c'])`, `F.get_column('c')[.to_list()]` for the frame parameter F -> 'c'"""
+    e = strip_wrappers(e, names=("list", "tuple"))
+    if isinstance(e, ast.Call) and isinstance(e.func, ast.Attribute) and e.func.attr in ("to_list", "to_numpy", "tolist") and not e.args:
+        e = e.func.value
+    if isinstance(e, ast.Subscript) and isinstance(e.value, ast.Name) and e.value.id == frame and isinstance(e.slice, ast.Constant) and isinstance(e.slice.value, str):
+        return e.slice.value
+    if isinstance(e, ast.Call) and isinstance(e.func, ast.Attribute) and e.func.attr in ("get_column", "to_series") and isinstance(e.func.value, ast.Name) \
+            and e.func.value.id == frame and len(e.args) == 1 and isinstance(e.args[0], ast.Constant) and isinstance(e.args[0].value, str):
+        return e.args[0].value
+    return None
+
+
+def _row_sequence(e: ast.AST, at: ast.AST, fn: ast.AST, frame: str, ROW: str, IDX: str, depth: int = 0) -> ast.AST:
+    """`e` (used at statement `at`) is a sequence with one entry per row of the frame, in row order: -> expression of its generic
+    entry in terms of the row `ROW[...]` and the row position IDX.  Recognised: a column of the frame; a comprehension (no filter)
+    over such sequences / a zip of them; a local list of that kind whose entries at constant positions were overwritten by constants."""
+    if depth > 6:
+        raise Unrecognised("per-row sequence nested too deep")
+    col = _frame_column(e, frame)
+    if col is not None:
+        return ast.Subscript(value=ast.Name(id=ROW, ctx=ast.Load()), slice=ast.Constant(value=col), ctx=ast.Load())
+    if isinstance(e, ast.Name):
+        rd = reaching_def(e.id, at, fn)
+        if rd is None:
+            raise Unrecognised(f"the definition of the per-row sequence `{e.id}` could not be re-identified")
+        val, st = rd
+        elem = _row_sequence(val, st, fn, frame, ROW, IDX, depth + 1)
+        # statements between the definition and the use that touch the list
+        blk = next((getattr(st._parent, f) for f in ("body", "orelse", "finalbody")
+                    if isinstance(getattr(st._parent, f, None), list) and any(x is st for x in getattr(st._parent, f))), None)
+        if blk is None:
+            raise Unrecognised(f"the per-row sequence `{e.id}` is not defined in straight-line code")
+        i0 = next(i for i, x in enumerate(blk) if x is st)
+        for x in blk[i0 + 1:]:
+            if x is at or any(y is at for y in ast.walk(x)):
+                break
+            touches = any(isinstance(y, ast.Name) and y.id == e.id for y in ast.walk(x))
+            if not touches:
+                continue
+            if isinstance(x, ast.Assign) and len(x.targets) == 1 and isinstance(x.targets[0], ast.Subscript) and isinstance(x.targets[0].value, ast.Name) \
+                    and x.targets[0].value.id == e.id and isinstance(x.targets[0].slice, ast.Constant) and isinstance(x.targets[0].slice.value, int) \
+                    and x.targets[0].slice.value >= 0 and isinstance(x.value, ast.Constant):
+                elem = ast.IfExp(test=ast.Compare(left=ast.Name(id=IDX, ctx=ast.Load()), ops=[ast.Eq()], comparators=[ast.Constant(value=x.targets[0].slice.value)]),
+                                 body=ast.Constant(value=x.value.value), orelse=elem)
+                continue
+            reads_only = not _assigns_name(x, e.id) and not any(
+                isinstance(y, ast.Call) and isinstance(y.func, ast.Attribute) and isinstance(y.func.value, ast.Name) and y.func.value.id == e.id for y in ast.walk(x)) \
+                and not any(isinstance(y, ast.Subscript) and isinstance(y.ctx, (ast.Store, ast.Del)) and isinstance(y.value, ast.Name) and y.value.id == e.id for y in ast.walk(x))
+            if not reads_only:
+                raise Unrecognised(f"`{unparse(x)[:60]}` changes the per-row sequence `{e.id}` in an unrecognised way")
+        return elem
+    if isinstance(e, (ast.ListComp, ast.GeneratorExp)) and len(e.generators) == 1 and not e.generators[0].ifs:
+        g = e.generators[0]
+        return subst(e.elt, _row_binding(g.iter, g.target, at, fn, frame, ROW, IDX, depth + 1))
+    raise Unrecognised(f"`{unparse(e)[:60]}` could not be recognised as a per-row sequence of the metadata frame")
+
+
+def _row_binding(it: ast.AST, target: ast.AST, at: ast.AST, fn: ast.AST, frame: str, ROW: str, IDX: str, depth: int = 0) -> dict:
+    """loop header `for target in it` over the rows of the frame: -> what each target name stands for in the generic iteration"""
+    if isinstance(it, ast.Call) and dotted(it.func) == "enumerate" and it.args and isinstance(target, ast.Tuple) and len(target.elts) == 2 \
+            and isinstance(target.elts[0], ast.Name):
+        start = it.args[1] if len(it.args) > 1 else next((k.value for k in it.keywords if k.arg == "start"), None)
+        if start is not None and not _const(start, 0):
+            raise Unrecognised(f"the loop counts rows from `{unparse(start)}`")
+        b = _row_binding(it.args[0], target.elts[1], at, fn, frame, ROW, IDX, depth + 1)
+        b[target.elts[0].id] = ast.Name(id=IDX, ctx=ast.Load())
+        return b
+    if isinstance(it, ast.Call) and dotted(it.func) == "zip" and isinstance(target, ast.Tuple) and len(target.elts) == len(it.args) \
+            and all(isinstance(t, ast.Name) for t in target.elts) and all(k.arg == "strict" for k in it.keywords):
+        return {t.id: _row_sequence(a, at, fn, frame, ROW, IDX, depth + 1) for t, a in zip(target.elts, it.args)}
+    if isinstance(target, ast.Name):
+        if isinstance(it, ast.Call) and dotted(it.func) == "range" and len(it.args) == 1 and unparse(it.args[0]) in (f"{frame}.height", f"len({frame})"):
+            return {target.id: ast.Name(id=IDX, ctx=ast.Load())}
+        return {target.id: _row_sequence(it, at, fn, frame, ROW, IDX, depth + 1)}
+    raise Unrecognised(f"loop header `for {unparse(target)} in {unparse(it)[:60]}` could not be related to the rows of the metadata frame")
+
+
 def assign_loop(pm) -> SimpleNamespace:
     """re-identify, by role, the greedy loop of _assign_pages and its state variables:
-    rv the row variable, iv the index variable (or None), P the page counter (what is stored to row['page']),
+    rv the row variable, iv the index variable (or None), P the page counter (what is stored as the row's page),
     R the fill counter (the other loop-carried variable), A the available rows (loop-invariant local that
-    derives from pagination.nrow), src the iterated expression"""
+    derives from pagination.nrow), src the iterated expression.
+    Two forms of 'storing the row's page': kind 'item'  `row['page'] = P` on the loop's row dict;  kind 'append'
+    `pages.append(P)` on a list that becomes the 'page' column of the returned frame - then the loop runs over per-row
+    sequences (columns of the frame, zipped / pre-computed lists) and `prologue` binds the loop's names to expressions over
+    the generic row (`bind`)."""
     fi = pm.func("PageBreakCalculator._assign_pages")
     fn = fi.node
+    params = _params(fn)
+    frame = next((p for p in params if p not in ("self", "cls")), None)
     found = []
     for lp in walk_no_nested(fn):
         if not isinstance(lp, ast.For):
@@ -160,28 +302,62 @@ def assign_loop(pm) -> SimpleNamespace:
                   and isinstance(s.targets[0].value, ast.Name) and s.targets[0].value.id in tn and _const(s.targets[0].slice, "page")]
         if stores:
             found.append((lp, stores))
-    if len(found) != 1:
+    if len(found) > 1:
         raise Unrecognised(f"the loop of _assign_pages that stores each row's page could not be re-identified ({len(found)} candidates)")
-    lp, stores = found[0]
-    it = lp.iter
-    iv = None
-    if isinstance(it, ast.Call) and dotted(it.func) == "enumerate" and it.args and isinstance(lp.target, ast.Tuple) \
-            and len(lp.target.elts) == 2 and all(isinstance(e, ast.Name) for e in lp.target.elts):
-        start = it.args[1] if len(it.args) > 1 else next((k.value for k in it.keywords if k.arg == "start"), None)
-        if start is not None and not _const(start, 0):
-            raise Unrecognised(f"the page-assignment loop counts from `{unparse(start)}`")
-        iv, rv = lp.target.elts[0].id, lp.target.elts[1].id
-        src = it.args[0]
-    elif isinstance(lp.target, ast.Name):
-        rv, src = lp.target.id, it
+    prologue, bind, Lst, kind = [], {}, None, "item"
+    if found:
+        lp, stores = found[0]
+        it = lp.iter
+        iv = None
+        if isinstance(it, ast.Call) and dotted(it.func) == "enumerate" and it.args and isinstance(lp.target, ast.Tuple) \
+                and len(lp.target.elts) == 2 and all(isinstance(e, ast.Name) for e in lp.target.elts):
+            start = it.args[1] if len(it.args) > 1 else next((k.value for k in it.keywords if k.arg == "start"), None)
+            if start is not None and not _const(start, 0):
+                raise Unrecognised(f"the page-assignment loop counts from `{unparse(start)}`")
+            iv, rv = lp.target.elts[0].id, lp.target.elts[1].id
+            src = it.args[0]
+        elif isinstance(lp.target, ast.Name):
+            rv, src = lp.target.id, it
+        else:
+            raise Unrecognised(f"loop header `for {unparse(lp.target)} in {unparse(it)}` of the page-assignment loop")
+        if any(s.targets[0].value.id != rv for s in stores):
+            raise Unrecognised("the page is stored to something else than the loop's row variable")
+        pvals = {unparse(s.value) for s in stores}
+        if len(pvals) != 1 or not isinstance(stores[0].value, ast.Name):
+            raise Unrecognised(f"the value stored as the row's page ({sorted(pvals)}) is not one page-counter variable")
+        P = stores[0].value.id
     else:
-        raise Unrecognised(f"loop header `for {unparse(lp.target)} in {unparse(it)}` of the page-assignment loop")
-    if any(s.targets[0].value.id != rv for s in stores):
-        raise Unrecognised("the page is stored to something else than the loop's row variable")
-    pvals = {unparse(s.value) for s in stores}
-    if len(pvals) != 1 or not isinstance(stores[0].value, ast.Name):
-        raise Unrecognised(f"the value stored as the row's page ({sorted(pvals)}) is not one page-counter variable")
-    P = stores[0].value.id
+        # a loop that appends the running page number to a list that becomes the 'page' column of the result
+        rets = [resolve(r.value, fn) for r in walk_no_nested(fn) if isinstance(r, ast.Return) and r.value is not None]
+        cands = []
+        for lp in walk_no_nested(fn):
+            if not isinstance(lp, ast.For):
+                continue
+            for c in ast.walk(lp):
+                if isinstance(c, ast.Call) and isinstance(c.func, ast.Attribute) and c.func.attr == "append" and isinstance(c.func.value, ast.Name) \
+                        and len(c.args) == 1 and isinstance(c.args[0], ast.Name) and not c.keywords:
+                    lst = c.func.value.id
+                    becomes_page = any(isinstance(x, ast.Call) and any(_const(a, "page") for a in list(x.args) + [k.value for k in x.keywords])
+                                       and any(isinstance(y, ast.Name) and y.id == lst for y in ast.walk(x)) for r in rets for x in ast.walk(r))
+                    if becomes_page and _enclosing_for(c, fn) is lp:
+                        cands.append((lp, c, lst))
+        if len({id(c[0]) for c in cands}) != 1 or len({c[2] for c in cands}) != 1 or len({c[1].args[0].id for c in cands}) != 1:
+            raise Unrecognised(f"the loop of _assign_pages that stores each row's page could not be re-identified ({len(cands)} candidates)")
+        lp, call, Lst = cands[0]
+        stores = [c[1] for c in cands]
+        P = call.args[0].id
+        kind = "append"
+        rd = reaching_def(Lst, lp, fn)
+        if rd is None or not ((isinstance(rd[0], (ast.List, ast.Tuple)) and not rd[0].elts) or (isinstance(rd[0], ast.Call) and dotted(rd[0].func) == "list" and not rd[0].args)):
+            raise Unrecognised(f"the list `{Lst}` of page numbers does not start empty right before the loop")
+        taken = {n.id for n in ast.walk(fn) if isinstance(n, ast.Name)} | set(params)
+        rv, idx = _fresh("row", taken), _fresh("i", taken)
+        bind = _row_binding(lp.iter, lp.target, lp, fn, frame, rv, idx)
+        iv = idx if any(isinstance(n, ast.Name) and n.id == idx for v in bind.values() for n in ast.walk(v)) else None
+        for nme, v in bind.items():
+            st = ast.Assign(targets=[ast.Name(id=nme, ctx=ast.Store())], value=v)
+            prologue.append(ast.fix_missing_locations(ast.copy_location(st, lp)))
+        src = _name(Lst)
     inner_ids = {id(n) for n in ast.walk(lp)}
 
     def assigned(nodes):
@@ -194,18 +370,17 @@ def assign_loop(pm) -> SimpleNamespace:
         return out
     asg_in = assigned(ast.walk(lp))
     asg_out = assigned(n for n in walk_no_nested(fn) if id(n) not in inner_ids)
-    carried = sorted((asg_in & asg_out) - {P, rv, iv})
+    carried = sorted((asg_in & asg_out) - {P, rv, iv, Lst})
     if P not in asg_in or P not in asg_out:
         raise Unrecognised(f"the page counter `{P}` is not a loop-carried variable")
     if len(carried) != 1:
         raise Unrecognised(f"the fill counter of the page-assignment loop could not be re-identified (loop-carried variables besides the page counter: {carried})")
     R = carried[0]
-    params = _params(fn)
     loads = {n.id for n in ast.walk(lp) if isinstance(n, ast.Name) and isinstance(n.ctx, ast.Load)}
     asg = assignments(fn)
     A = None
     cands = []
-    for nme in sorted(loads - asg_in - set(params) - {P, R, rv, iv}):
+    for nme in sorted(loads - asg_in - set(params) - {P, R, rv, iv, Lst} - set(bind)):
         if len(asg.get(nme, [])) != 1:
             continue
         val = resolve(_name(nme), fn)
@@ -213,9 +388,8 @@ def assign_loop(pm) -> SimpleNamespace:
             cands.append(nme)
     if len(cands) == 1:
         A = cands[0]
-    frame = next((p for p in params if p not in ("self", "cls")), None)
     return SimpleNamespace(fi=fi, fn=fn, lp=lp, iv=iv, rv=rv, src=src, P=P, R=R, A=A, stores=stores, frame=frame, params=params,
-                           h=f"{rv}[total_rows]")
+                           h=f"{rv}[total_rows]", kind=kind, Lst=Lst, prologue=prologue, bind=bind)
 
 
 def _classify(key: str, L) -> tuple[str, bool, int | None]:
@@ -295,7 +469,7 @@ def r04_1(ctx: Ctx, mode: str = "full") -> None:
         if "new_page" not in L.params:
             ctx.gap("R04.1", "_assign_pages no longer has a new_page parameter")
             return
-    dt = DT(pm, classes={"self": "PageBreakCalculator"})
+    dt = DT(pm, classes={"self": "PageBreakCalculator"}, effect_calls={"append"} if L.kind == "append" else None)
     base_names = [x for x in (iv, rv, P, R, A, "new_page") if x]
 
     def env0():
@@ -303,7 +477,7 @@ def r04_1(ctx: Ctx, mode: str = "full") -> None:
         env["self"] = Sym("self", "PageBreakCalculator")
         return env
     try:
-        lv = enumerate_block(dt, lp.body, env0, fi)
+        lv = enumerate_block(dt, L.prologue + lp.body, env0, fi)     # one generic iteration from a symbolic entry state
     except Unsupported as e:
         raise AnalysisError(f"_assign_pages loop body outside the decision-table subset: {e}")
     role = {a: _classify(a, L) for a in sorted(dt.discovered)}
@@ -355,8 +529,11 @@ def r04_1(ctx: Ctx, mode: str = "full") -> None:
                 if wrong:
                     bad.append((v, broke))
                 # post-state (on every feasible path, whatever the mode)
-                st = [e for e in eff if e[0] == "store" and e[1] == rv and str(e[2]).strip("[]") == "page"]
                 cp = env.get(P)
+                if L.kind == "append":
+                    st = [("append", e[2], "", e[3][0] if e[3] else None) for e in eff if e[0] == "call" and e[1] == "append" and e[2] == L.Lst]
+                else:
+                    st = [e for e in eff if e[0] == "store" and e[1] == rv and str(e[2]).strip("[]") == "page"]
                 if len(st) != 1 or st[0][3] != (cp.path if isinstance(cp, Sym) else cp):
                     ctx.violation("R04.1", fi.short, "page store " + str(st), fi.where(lp),
                                   f"the row's page is not set exactly once to the (possibly incremented) current page on the path {v}")
@@ -449,6 +626,9 @@ def r04_1(ctx: Ctx, mode: str = "full") -> None:
     else:
         ctx.gap("R04.1", f"the initial values of `{P}` / `{R}` could not be re-identified")
     # rows visited in metadata order
+    if L.kind == "append":
+        ctx.instance("R04.1", fi.where(lp), f"generic row of the loop over per-row sequences: {({k: unparse(v) for k, v in L.bind.items()})}; pages collected in `{L.Lst}`")
+        return
     src = resolve(L.src, fn)
     order_ops = [c for c in ast.walk(src) if isinstance(c, ast.Call) and
                  ((isinstance(c.func, ast.Name) and c.func.id in ("sorted", "reversed")) or
@@ -611,6 +791,37 @@ def _row_offset(e: ast.AST, col: str, i: str, lp: ast.For, fn: ast.AST):
     return of_row_call(row)
 
 
+def _harmless_flag_guard(atom: str, grp: str, other: str) -> bool:
+    """a condition under which the flags of rows 1.. are computed is harmless if it only requires that there are grouping
+    columns, or a frame height that every frame with a row 1 has (height >= 2): skipping the pass for shorter frames skips nothing"""
+    try:
+        e = ast.parse(atom[1:] if atom.startswith("!") else atom, mode="eval").body
+    except SyntaxError:
+        return False
+    neg = atom.startswith("!")
+    e = _peel(e)
+    if isinstance(e, ast.Name):
+        return e.id in (grp, other) and not neg
+    if isinstance(e, ast.BoolOp) and isinstance(e.op, ast.Or) and not neg:
+        return all(isinstance(_peel(v), ast.Name) and _peel(v).id in (grp, other) for v in e.values) and any(_peel(v).id == grp for v in e.values)
+    if unparse(e) in _HEIGHTS:
+        return not neg                      # truthy height
+    if isinstance(e, ast.Compare) and not neg:
+        g = _gt0(e)
+        if g is None:
+            return False
+        op, lf = g
+        hs = [k for k in lf if k != ""]
+        if len(hs) != 1 or hs[0] not in _HEIGHTS or lf[hs[0]] != 1:
+            return False
+        c0 = lf.get("", 0)
+        if op == ">":
+            return c0 >= -1                 # height + c0 > 0  <=>  height >= 1 - c0, implied by height >= 2
+        if op == "!=":
+            return -c0 < 2                  # height != -c0
+    return False
+
+
 def _change_flags(ctx: Ctx, c, grp: str, other: str, X: str, scope_fns: list) -> None:
     """R04.4 for one grouping: X[i] (i >= 1) must be `any column of grp differs between row i-1 and row i` and X[0] True"""
     fn = c.node
@@ -640,6 +851,17 @@ def _change_flags(ctx: Ctx, c, grp: str, other: str, X: str, scope_fns: list) ->
                                   any(isinstance(y, ast.Call) and isinstance(y.func, ast.Attribute) and y.func.attr == "shift" for y in ast.walk(x)))
             if shifted:
                 hint = hint or f"found `{unparse(x)[:60]}`: a polars comparison with a shifted column is null next to a null, so such transitions are dropped"
+        if not hint:
+            # what flows into the flag list (temporaries expanded)
+            flows = list(alternatives(_name(X), fn))
+            called = {y.func.attr for a in flows for y in ast.walk(a) if isinstance(y, ast.Call) and isinstance(y.func, ast.Attribute)}
+            flows += [sc for sc in scope_fns if sc is not fn and getattr(sc, "name", None) in called]
+            for alt in flows:
+                for x in ast.walk(alt):
+                    if isinstance(x, ast.Call) and isinstance(x.func, ast.Attribute) and x.func.attr in (
+                            "is_first_distinct", "is_last_distinct", "is_unique", "is_duplicated", "unique"):
+                        hint = (f"found `{unparse(x)[-60:]}`: the flag of a row depends on whether its key occurs ANYWHERE else in the frame, not on the row before it; "
+                                "a group value that re-appears after another one is not flagged")
         if hint:
             ctx.violation("R04.4", c.short, key, c.where(), f"{grp} group starts are no longer detected by comparing consecutive rows column by column ({hint})")
         else:
@@ -665,10 +887,9 @@ def _change_flags(ctx: Ctx, c, grp: str, other: str, X: str, scope_fns: list) ->
         if not (isinstance(lp.target, ast.Name) and m is not None and unparse(m["_H"]) in _HEIGHTS):
             ctx.gap("R04.4", f"the {grp} flags are written in `for {unparse(lp.target)} in {unparse(lp.iter)}`, not a pass over rows 1..height-1")
             continue
-        allowed = {grp, other, "df.height", "df", "len", "0", "1"}
-        gl = {x for t, _pol in guards(s, fn) for x in leaves(t)}
-        if not gl <= allowed:
-            ctx.gap("R04.4", f"the {grp} flag store is conditioned on {sorted(gl - allowed)}")
+        odd = [a for a in sorted(guard_atoms(guards(s, fn))) if not _harmless_flag_guard(a, grp, other)]
+        if odd:
+            ctx.gap("R04.4", f"the {grp} flag store is conditioned on {odd}")
             continue
         # value: any(CMP for col in GRP)  |  flag variable set in `for col in GRP: if CMP: flag = True`
         val = s.value
@@ -805,6 +1026,80 @@ def r04_3_4(ctx: Ctx, lookahead: bool = True, flags: bool = True) -> None:
 
 # ------------------------------------------------------------------------------------------------ R04.5
 
+_PAGE = "__page__"
+
+
+def _page_iter_elem(it: ast.AST, at: ast.AST, fi, pm, depth: int = 0):
+    """generic element of an iterable over the pages: -> (element expression, order, metadata frame text) where the page number is the
+    symbol __page__ and order is 'asc' / 'unordered' / 'desc'; None if not recognised.  Sees through sequentially re-bound locals,
+    comprehension / generator chains (filters only drop elements, they keep the order) and calls of helper functions."""
+    fn = fi.node
+    if depth > 8:
+        return None
+    it = strip_wrappers(it, names=("list", "tuple", "iter"))
+    for pat, order in (("_M['page'].unique().sort()", "asc"), ("sorted(_M['page'].unique())", "asc"), ("sorted(set(_M['page']))", "asc"),
+                       ("sorted(_M['page'].unique().to_list())", "asc"), ("_M['page'].unique().sort().to_list()", "asc"),
+                       ("_M['page'].unique(maintain_order=True)", "asc?"), ("_M['page'].unique()", "unordered"), ("set(_M['page'])", "unordered"),
+                       ("_M['page'].unique().sort(descending=True)", "desc"), ("sorted(_M['page'].unique(), reverse=True)", "desc")):
+        m = match(pat, it)
+        if m is not None:
+            return ast.Name(id=_PAGE, ctx=ast.Load()), order, unparse(m["_M"])
+    if isinstance(it, ast.Name):
+        rd = reaching_def(it.id, at, fn)
+        if rd is None:
+            return None
+        return _page_iter_elem(rd[0], rd[1], fi, pm, depth + 1)
+    if isinstance(it, (ast.ListComp, ast.GeneratorExp)) and len(it.generators) == 1:
+        g = it.generators[0]
+        inner = _page_iter_elem(g.iter, at, fi, pm, depth + 1)
+        if inner is None:
+            return None
+        el, order, M = inner
+        if isinstance(g.target, ast.Name):
+            b = {g.target.id: el}
+        elif isinstance(g.target, ast.Tuple) and isinstance(el, ast.Tuple) and len(g.target.elts) == len(el.elts) and all(isinstance(t, ast.Name) for t in g.target.elts):
+            b = {t.id: x for t, x in zip(g.target.elts, el.elts)}
+        else:
+            return None
+        return subst(it.elt, b), order, M
+    if isinstance(it, ast.Call):
+        callee = None
+        if isinstance(it.func, ast.Name):
+            r = pm.resolve(fi.module, it.func.id)
+            callee = r[1] if r and r[0] == "func" else None
+        elif isinstance(it.func, ast.Attribute) and isinstance(it.func.value, ast.Name) and it.func.value.id in ("self", "cls") and fi.cls:
+            callee = pm.find_method(fi.cls, it.func.attr)
+        if callee is None or any(isinstance(x, (ast.Yield, ast.YieldFrom)) for x in walk_no_nested(callee.node)):
+            return None
+        rets = [x for x in walk_no_nested(callee.node) if isinstance(x, ast.Return) and x.value is not None]
+        if len(rets) != 1 or guards(rets[0], callee.node):
+            return None
+        ps = [p for p in _params(callee.node) if not (callee.cls and not callee.is_static and p in ("self", "cls"))]
+        b = dict(zip(ps, it.args))
+        b.update({k.arg: k.value for k in it.keywords if k.arg})
+        if set(b) != set(ps) or any(_assigns_name(st, p) for p in ps for st in callee.node.body):
+            return None
+        inner = _page_iter_elem(rets[0].value, rets[0], callee, pm, depth + 1)
+        if inner is None:
+            return None
+        el, order, M = inner
+        return subst(el, b), order, unparse(subst(ast.parse(M, mode="eval").body, b))
+    return None
+
+
+def _page_bound_of_elem(e: ast.AST, M: str):
+    """`e` is built from the page symbol: min / max row_index of the rows of M on that page?"""
+    e = _peel(e)
+    for kind in ("min", "max"):
+        m = match(f"_F['row_index'].{kind}()", e) or match(f"_F.get_column('row_index').{kind}()", e)
+        if m is None:
+            continue
+        m2 = match("_M.filter(pl.col('page') == _P)", m["_F"]) or match("_M.filter(_P == pl.col('page'))", m["_F"])
+        if m2 is not None and isinstance(m2["_P"], ast.Name) and m2["_P"].id == _PAGE and unparse(m2["_M"]) == M:
+            return kind
+    return None
+
+
 def _page_bound(e: ast.AST, fn: ast.AST, lp: ast.For):
     """provenance of a slice bound: -> ('min'|'max', order) where order is 'asc' / 'unordered' / 'desc' / '?', or None.
     Two recognised derivations of 'the smallest / largest row_index of the rows assigned to this page':
@@ -913,6 +1208,15 @@ def r04_5(ctx: Ctx) -> None:
             be = _page_bound(ast.parse(ends[0], mode="eval").body, fn, lp)
         except SyntaxError:
             bs = be = None
+        if (bs is None or be is None) and isinstance(lp.target, ast.Tuple) and all(isinstance(t, ast.Name) for t in lp.target.elts):
+            # the page loop runs over pre-computed (page, first, last) tuples: follow the iterable to its generic element
+            ge = _page_iter_elem(lp.iter, lp, fi, pm)
+            names = [t.id for t in lp.target.elts]
+            if ge is not None and isinstance(ge[0], ast.Tuple) and len(ge[0].elts) == len(names) and starts[0] in names and ends[0] in names:
+                el, order, M = ge
+                ks, ke = _page_bound_of_elem(el.elts[names.index(starts[0])], M), _page_bound_of_elem(el.elts[names.index(ends[0])], M)
+                if ks is not None and ke is not None:
+                    bs, be = (ks, order if order != "asc?" else "?"), (ke, order)
         if bs is None or be is None:
             ctx.gap("R04.5", f"{short}: the origin of the page bounds `{starts[0]}` / `{ends[0]}` could not be re-identified")
             continue
